@@ -104,7 +104,9 @@ def main():
     d = open(p).read()
     m = re.search(r"\n## 2\.[^\n]*\n(.*?)(\n## 3|\Z)", md, re.S)
     if m and ("### %s —" % c) not in d[d.find("## 11."):]:
-        d = d.rstrip() + "\n\n### %s — as built\n\n%s\n" % (c, m.group(1).strip())
+        sec = "### %s — as built\n\n%s\n\n" % (c, m.group(1).strip())
+        k = d.find("## 12. Observations")
+        d = (d[:k] + sec + d[k:]) if k >= 0 else (d.rstrip() + "\n\n" + sec)
         open(p, "w").write(d)
     print("integrated", c, "checks:", [x["property_id"] for x in man["checks"]])
 
